@@ -403,7 +403,7 @@ def shard(ctx):
     from .oracle_c07 import all_modes
     install(ctx.R)
     modes = all_modes()
-    for i in ctx.indices(ctx.pick(2500, 60000)):
+    for i in ctx.indices(ctx.pick(2500, 400000)):
         rng = ctx.rng('api', i)
         case = draw(rng, modes)
         run_api(ctx, case, rng)
@@ -415,9 +415,9 @@ def shard(ctx):
     pool = []
     for rank in (2, 3, 4):
         pool.extend((rank, l) for l in lcfrs.enum_lins(rank, 6))
-    for i in ctx.indices(ctx.pick(1500, 40000)):
+    for i in ctx.indices(ctx.pick(1500, 250000)):
         run_synthetic(ctx, ctx.rng('syn', i), pool)
-    for i in ctx.indices(ctx.pick(80, 1500)):
+    for i in ctx.indices(ctx.pick(80, 5000)):
         rng = ctx.rng('cli', i)
         case = draw(rng, modes)
         case.pop('mode', None)
